@@ -5,6 +5,7 @@ package proc
 import (
 	"bufio"
 	"os"
+	"path/filepath"
 	"regexp"
 	"strconv"
 	"strings"
@@ -122,6 +123,25 @@ func unquote(s string) string {
 	return u
 }
 
+// dirBefore returns the path annotation (AT_FDCWD</cwd> or 7</dir>) that immediately
+// precedes position pos in args, "" if there is none.
+var dirAnnRe = regexp.MustCompile(`(?:AT_FDCWD|\d+)<([^>]*)>,\s*$`)
+
+func resolveRel(args string, quoted string, path string) string {
+	if strings.HasPrefix(path, "/") {
+		return path
+	}
+	i := strings.Index(args, quoted)
+	if i < 0 {
+		return path
+	}
+	m := dirAnnRe.FindStringSubmatch(args[:i])
+	if m == nil {
+		return path
+	}
+	return filepath.Clean(filepath.Join(unquote(m[1]), path))
+}
+
 func parseCall(s string) *Event {
 	m := callRe.FindStringSubmatch(s)
 	if m == nil {
@@ -147,7 +167,7 @@ func parseCall(s string) *Event {
 		if q == nil {
 			return nil
 		}
-		ev.Path = unquote(q[1])
+		ev.Path = resolveRel(args, q[0], unquote(q[1]))
 		after := args[strings.Index(args, q[0])+len(q[0]):]
 		parts := strings.Split(strings.TrimPrefix(after, ", "), ",")
 		if len(parts) > 0 {
@@ -184,14 +204,14 @@ func parseCall(s string) *Event {
 		if q == nil {
 			return nil
 		}
-		ev.Path = unquote(q[1])
+		ev.Path = resolveRel(args, q[0], unquote(q[1]))
 		ev.Name = "unlink"
 	case "renameat", "renameat2", "rename":
 		qs := quotedRe.FindAllStringSubmatch(args, -1)
 		if len(qs) < 2 {
 			return nil
 		}
-		ev.Path, ev.Path2 = unquote(qs[0][1]), unquote(qs[1][1])
+		ev.Path, ev.Path2 = resolveRel(args, qs[0][0], unquote(qs[0][1])), resolveRel(args, qs[1][0], unquote(qs[1][1]))
 		ev.Name = "rename"
 	default:
 		return nil
